@@ -735,6 +735,14 @@ func fixedSpecs(b *baseFont) []SynthSpec {
 		subFormat4([]seg4{{Start: 0x10, End: 0x120, Delta: 1, ArrIndex: -1}, {Start: 0x30, End: 0x40, Delta: 9, ArrIndex: -1}, sent}, nil)}))
 	out = append(out, mk("f4-unsorted", b.os2, "donor", encRec{3, 1,
 		subFormat4([]seg4{{Start: 0x300, End: 0x320, Delta: 1, ArrIndex: -1}, {Start: 0x30, End: 0x40, Delta: 9, ArrIndex: -1}, sent}, nil)}))
+	// segments that reach 0xFFFF and are followed (in start order) by further segments: a
+	// 16-bit "first rune not covered yet" cursor wraps to 0 there
+	out = append(out, mk("f4-duplicate-sentinel", b.os2, "donor", encRec{3, 1,
+		subFormat4([]seg4{{Start: 0x41, End: 0x5A, Delta: 1, ArrIndex: -1}, sent, sent}, nil)}))
+	out = append(out, mk("f4-overlap-up-to-ffff", b.os2, "donor", encRec{3, 1,
+		subFormat4([]seg4{{Start: 0xFF00, End: 0xFFFF, Delta: dl(7, 0xFF00), ArrIndex: -1}, {Start: 0xFF80, End: 0xFFFF, Delta: dl(900, 0xFF80), ArrIndex: -1}}, nil)}))
+	out = append(out, mk("f4-segment-to-ffff-then-sentinel", b.os2, "donor", encRec{3, 1,
+		subFormat4([]seg4{{Start: 0x20, End: 0x7E, Delta: 1, ArrIndex: -1}, {Start: 0xFFF0, End: 0xFFFF, Delta: dl(300, 0xFFF0), ArrIndex: -1}, sent}, nil)}))
 	out = append(out, mk("f4-only-sentinel", b.os2, "donor", encRec{3, 1, subFormat4([]seg4{sent}, nil)}))
 	out = append(out, mk("f4-sentinel-offset-ffff", b.os2, "donor", encRec{3, 1,
 		subFormat4([]seg4{{Start: 0x41, End: 0x5A, Delta: 1, ArrIndex: -1}, {Start: 0xFFFF, End: 0xFFFF, Delta: 1, ArrIndex: -2}}, nil)}))
